@@ -680,8 +680,69 @@ def gen_faults(rng, params, use_mp):
     return (f or None), crash
 
 
+def gen_big(seed, params):
+    """Element lists beyond a thousand entries (the print threshold of
+    array reprs, and where anything keyed on a digest of a *prefix* of the
+    list shows): two calls of equal shape against one cache directory whose
+    long lists agree at both ends and differ in the interior -- two interior
+    positions swapped, interior elements replaced, or another sample between
+    the same first and last entries.  Narrow rectangles (long x 1..3) keep
+    the cost at a few thousand pair evaluations."""
+    rng = stream(seed, 'workload-big')
+    dirs = [{'pw_exact': rng.random() < 0.4, 'quad_order': 4, 'quad_int': 2,
+             'u0': rng.choice(['one', 'sine', 'poly']), 'missing': False}]
+    curve = rng.choice(['UnitSquare', 'PiSquare', 'LShape', 'Circle',
+                        'UnitInterval'])
+    hist = []
+    while True:
+        spec = {'op': 'session', 'sid': 0, 'curve': curve, 'history': hist,
+                'dir': 0}
+        tmp = Session(spec, ['/nonexistent'], dirs)
+        n = len(tmp.case.mesh.leaf_elements)
+        if n >= 1024:
+            break
+        hist = hist + [{'op': 'uniform'}]
+    ops = [spec]
+    L = rng.randint(1001, min(n, 1100))
+    A = rng.sample(range(n), L)
+    style = rng.random()
+    B = list(A)
+    lo, hi = 8, L - 8
+    if style < 0.35:
+        i, j = rng.sample(range(lo, hi), 2)
+        B[i], B[j] = B[j], B[i]
+    elif style < 0.7:
+        rest = [q for q in range(n) if q not in set(A)]
+        for i in rng.sample(range(lo, hi), min(len(rest), rng.randint(1, 40))):
+            B[i] = rest.pop(rng.randrange(len(rest)))
+    else:
+        mid = [q for q in range(n) if q not in set(A[:lo] + A[hi:])]
+        B = A[:lo] + rng.sample(mid, hi - lo) + A[hi:]
+    T = {'kind': 'sub', 'idx': rng.sample(range(n), rng.randint(1, 3))}
+    side = rng.random()
+    vector = side > 0.75 and curve in WITH_DOMAIN
+    seq = [A, B] + ([A] if rng.random() < 0.4 else [])
+    for k, idx in enumerate(seq):
+        base = {'sid': 0, 'use_mp': rng.random() < 0.5,
+                'workers': rng.randint(1, 16),
+                'sched_seed': rng.randrange(1 << 30),
+                'set_seed': rng.randrange(1 << 30)}
+        sel = {'kind': 'sub', 'idx': idx}
+        if vector:
+            ops.append(dict(base, op='m0v', sel=sel))
+        elif side < 0.45:
+            ops.append(dict(base, op='slm', test=sel, trial=T))
+        else:
+            ops.append(dict(base, op='slm', test=T, trial=sel))
+        if k == 0 and rng.random() < 0.3:
+            ops.append({'op': 'restart', 'sid': 0})
+    return {'dirs': dirs, 'ops': ops}
+
+
 def gen_run(seed, params):
     seams.install()
+    if stream(seed, 'scenario').random() < params.get('p_big', 0.0):
+        return gen_big(seed, params)
     rng = stream(seed, 'workload')
     n_dirs = 1 if rng.random() < 0.7 else 2
     dirs = []
